@@ -7,8 +7,9 @@ from vocab import uri_segs
 
 JSON_OPTS = {"plain": {}, "indent": {"indent": 2}, "sort": {"sort_keys": True},
              "ascii": {"ensure_ascii": False},
-             "all": {"indent": 1, "sort_keys": True, "ensure_ascii": False}}
-XML_OPTS = {"plain": {}, "force": {"force_types": True}}
+             "all": {"indent": 1, "sort_keys": True, "ensure_ascii": False},
+             "alt": {"indent": 1, "sort_keys": True}}
+XML_OPTS = {"plain": {}, "force": {"force_types": True}, "alt": {"force_types": True}}
 
 
 def proj_doc(d, voc):
